@@ -7,7 +7,7 @@
     in Server/GraphProofs.v for every store satisfying the node-table invariant and every root list. *)
 From Coq Require Import NArith List Bool.
 From Coq Require Import Sorted.
-From ADF Require Import Spec.Spec Bdd.Store Bdd.WF Front.Parser Server.Model Server.Isolation Server.Graph Server.GraphProofs Gen.GenDispatch Gen.TieDispatch.
+From ADF Require Import Spec.Spec Bdd.Store Bdd.WF Front.Parser Server.Model Server.Isolation Server.Graph Server.GraphProofs Server.Overlap Gen.GenDispatch Gen.TieDispatch.
 Import ListNotations.
 Local Open Scope N_scope.
 
@@ -149,3 +149,48 @@ Theorem C16_source_parsing_dispatch :
   g_parsings = [("Hybrid", "biodivine+hybrid_step_opt(false)"); ("Naive", "native")]%string.
 Proof. exact parsing_dispatch_matches_source. Qed.
 Print Assumptions C16_source_parsing_dispatch.
+
+(** requests in any order: tasks that overlap (Server/Overlap.v).  Two pending tasks that do not write the same
+    field of the same problem can end in either order with the same outcome (same users, running set, pending
+    list and sessions; the same documents up to the order in which a problem lists its results - the model
+    keeps them in an association list, the service in one field per strategy); reads change nothing and can be
+    inserted anywhere in a history *)
+Theorem C16_task_completions_commute : forall adfdata answers lib_parse lib_solve tbl rp (s : sstate adfdata answers) i j bi bj ti tj,
+  filters_ok tbl = true -> (i < j)%nat ->
+  nth_error (pending adfdata answers s) i = Some ti -> nth_error (pending adfdata answers s) j = Some tj ->
+  independent adfdata ti tj ->
+  state_equiv adfdata answers
+    (Model.complete adfdata answers lib_parse lib_solve tbl rp (Model.complete adfdata answers lib_parse lib_solve tbl rp s i bi) (j - 1) bj)
+    (Model.complete adfdata answers lib_parse lib_solve tbl rp (Model.complete adfdata answers lib_parse lib_solve tbl rp s j bj) i bi).
+Proof. exact complete_commute. Qed.
+Print Assumptions C16_task_completions_commute.
+
+Theorem C16_gets_change_nothing : forall adfdata answers digest tbl (s : sstate adfdata answers) c n,
+  fst (handle adfdata answers digest tbl s c (RGet n)) = s /\ fst (handle adfdata answers digest tbl s c RList) = s.
+Proof. exact repeated_get_pure. Qed.
+Print Assumptions C16_gets_change_nothing.
+
+(** a second strategy requested while the first one is still running: whichever task ends first, both answers
+    are stored (exactly what the library returns for the stored diagram), nothing runs any more, and GET shows both *)
+Theorem C16_overlapping_solves : forall adfdata answers lib_parse lib_solve digest tbl rp (s : sstate adfdata answers) c U n l1 l2 P d st1 st2 a1 a2,
+  filters_ok tbl = true ->
+  identity adfdata answers s c = Some U ->
+  probs adfdata answers s = (l1 ++ P :: l2)%list ->
+  no_problem adfdata answers U n l1 ->
+  p_owner adfdata answers P = U -> p_name adfdata answers P = n -> p_adf adfdata answers P = OSome d ->
+  no_running U n (running adfdata answers s) ->
+  st1 <> st2 ->
+  (forall a, res_of adfdata answers P st1 <> OSome a) -> (forall a, res_of adfdata answers P st2 <> OSome a) ->
+  lib_solve d st1 = Done a1 -> lib_solve d st2 = Done a2 ->
+  let k := List.length (pending adfdata answers s) in
+  let get_of Pf := Some (200%N, PProblem answers (mkInfo answers n (p_code adfdata answers P) (p_parsing adfdata answers P) (p_parse adfdata answers P) (p_res adfdata answers Pf) [])) in
+  let PA := set_res adfdata answers (set_res adfdata answers P st1 (OSome a1)) st2 (OSome a2) in
+  let PB := set_res adfdata answers (set_res adfdata answers P st2 (OSome a2)) st1 (OSome a1) in
+  run_events adfdata answers lib_parse lib_solve digest tbl rp s
+    [EReq c (RSolve n st1); EReq c (RSolve n st2); EComplete k false; EComplete k false; EReq c (RGet n)] =
+    (with_probs adfdata answers s (l1 ++ PA :: l2), [Some (200%N, PNone answers); Some (200%N, PNone answers); None; None; get_of PA]) /\
+  run_events adfdata answers lib_parse lib_solve digest tbl rp s
+    [EReq c (RSolve n st1); EReq c (RSolve n st2); EComplete (S k) false; EComplete k false; EReq c (RGet n)] =
+    (with_probs adfdata answers s (l1 ++ PB :: l2), [Some (200%N, PNone answers); Some (200%N, PNone answers); None; None; get_of PB]).
+Proof. exact overlapping_solves_history. Qed.
+Print Assumptions C16_overlapping_solves.
